@@ -44,6 +44,13 @@ def tag_positional(rng, root):
           fdl.add_tag(b, k, rng.choice(TAGS))
         except (IndexError, AttributeError):
           pass
+      # unset positional-only parameters (with or without a default) can carry tags too
+      for i, prm in enumerate(l2.sig_params(b.__fn_or_cls__)):
+        if prm[1] == "PosOnly" and i not in b.__arguments__ and rng.random() < 0.5:
+          try:
+            fdl.add_tag(b, i, rng.choice(TAGS))
+          except (IndexError, AttributeError, TypeError):
+            pass
       for k in rng.sample(extra, min(len(extra), rng.randint(0, 1))):
         try:
           fdl.add_tag(b, k, rng.choice(TAGS))
@@ -251,13 +258,126 @@ def check_tagged_value(rng, res, label):
                                 f"{type(e).__name__}", {}))
 
 
+# ---- sequences of tag operations against an independent reference ---------------------------------
+import typing
+
+
+def ann(m: typing.Annotated[int, l2.TagA] = 1, n: typing.Annotated[int, l2.TagB] = 2, o=3, *,
+        z: typing.Annotated[int, l2.TagA1] = 4):
+  return l2._rec("ann", locals())  # pylint: disable=protected-access
+
+
+ANN_TAGS = {"m": {l2.TagA}, "n": {l2.TagB}, "z": {l2.TagA1}}
+SEQ_FNS = [(ann, ["m", "n", "o", "z"]), (l2.fa, ["a", "b"]), (l2.Ka, ["p", "q"]), (l2.fg, ["u", "v", "w"])]
+
+
+def tag_sequence_case(rng, res, label):
+  """Constructor arguments given as TaggedValues (one TaggedValue object possibly used for several
+  arguments), annotation tags, then a random sequence of add / remove / set / clear tag operations and
+  assignments of TaggedValues; after every step the tags of every argument must equal the reference."""
+  tvs = [rng.choice(TAGS).new(rng.randint(0, 9)) for _ in range(2)]
+  tvs.append(tagging.TaggedValue([rng.choice(TAGS), rng.choice(TAGS)], 77))
+  nodes, expect = [], []
+  trace = []
+  for ci in range(rng.randint(1, 3)):
+    fn, names = rng.choice(SEQ_FNS)
+    kwargs, exp = {}, {nm: set(ANN_TAGS.get(nm, ())) if fn is ann else set() for nm in names}
+    for nm in names:
+      r = rng.random()
+      if r < 0.35:
+        tv = rng.choice(tvs)
+        kwargs[nm] = tv
+        exp[nm] |= set(tv.__argument_tags__["value"]) if "value" in tv.__argument_tags__ else set(tv.tags)
+      elif r < 0.5:
+        kwargs[nm] = rng.randint(10, 20)
+    cfg = fdl.Config(fn, **kwargs)
+    trace.append(f"c{ci} = fdl.Config({fn.__name__}, " + ", ".join(
+        f"{k}=<TV{tvs.index(v)} {sorted(t.__name__ for t in v.tags)}>" if isinstance(v, tagging.TaggedValueCls)
+        else f"{k}={v}" for k, v in kwargs.items()) + ")")
+    nodes.append((cfg, names))
+    expect.append(exp)
+  root = fdl.Config(l2.fd, **{f"c{i}": c for i, (c, _) in enumerate(nodes)})
+  res.evaluations += 1
+  res.count("tag-sequence")
+
+  def verify(step):
+    for ci, (cfg, names) in enumerate(nodes):
+      for nm in names:
+        got = set(tagging.get_tags(cfg, nm))
+        if got != expect[ci][nm]:
+          return (f"after {step}: tags of c{ci}.{nm} are {sorted(t.__name__ for t in got)}, expected "
+                  f"{sorted(t.__name__ for t in expect[ci][nm])}")
+    union = set().union(*[ts for exp in expect for ts in exp.values()]) if expect else set()
+    if set(tagging.list_tags(root)) != union:
+      return f"after {step}: list_tags differs from the union of the tag sets"
+    return None
+
+  problem = verify("construction")
+  for step in range(rng.randint(2, 8)):
+    if problem:
+      break
+    ci = rng.randrange(len(nodes))
+    cfg, names = nodes[ci]
+    nm = rng.choice(names)
+    op = rng.choice(["add", "remove", "set", "clear", "assign_tv", "assign_plain"])
+    t = rng.choice(TAGS)
+    try:
+      if op == "add":
+        fdl.add_tag(cfg, nm, t)
+        expect[ci][nm].add(t)
+      elif op == "remove":
+        if t in expect[ci][nm]:
+          fdl.remove_tag(cfg, nm, t)
+          expect[ci][nm].discard(t)
+        else:
+          try:
+            fdl.remove_tag(cfg, nm, t)
+            problem = f"remove_tag of an absent tag on c{ci}.{nm} did not raise"
+          except ValueError:
+            pass
+      elif op == "set":
+        new = {rng.choice(TAGS) for _ in range(rng.randint(0, 2))}
+        fdl.set_tags(cfg, nm, new)
+        expect[ci][nm] = set(new)
+      elif op == "clear":
+        fdl.clear_tags(cfg, nm)
+        expect[ci][nm] = set()
+      elif op == "assign_tv":
+        tv = rng.choice(tvs)
+        setattr(cfg, nm, tv)
+        expect[ci][nm] |= set(tv.tags)
+      else:
+        setattr(cfg, nm, rng.randint(30, 40))
+    except Exception as e:  # pylint: disable=broad-except
+      problem = f"{op} on c{ci}.{nm} raised {type(e).__name__}: {e}"
+    trace.append(f"{op} c{ci}.{nm} {t.__name__}")
+    problem = problem or verify(f"step {step} ({op} c{ci}.{nm})")
+  if not problem:
+    # set_tagged reaches exactly the arguments whose reference tag set holds the tag or a subclass
+    t = rng.choice(TAGS)
+    before = {(ci, nm): cfg.__arguments__.get(nm, "<unset>") for ci, (cfg, names) in enumerate(nodes) for nm in names}
+    fdl.set_tagged(root, tag=t, value=4321)
+    for ci, (cfg, names) in enumerate(nodes):
+      for nm in names:
+        hit = any(issubclass(x, t) for x in expect[ci][nm])
+        now = cfg.__arguments__.get(nm, "<unset>")
+        if hit and now != 4321:
+          problem = f"set_tagged({t.__name__}) did not set c{ci}.{nm} (tags {sorted(x.__name__ for x in expect[ci][nm])})"
+        if not hit and now is not before[(ci, nm)] and now != before[(ci, nm)]:
+          problem = f"set_tagged({t.__name__}) changed the untagged argument c{ci}.{nm}"
+  if problem:
+    res.failures.append(Failure(None, f"C14 {label}: {problem}", {"label": label, "trace": trace}))
+
+
 def run(tier: str, seed: int) -> Result:
   rng = random.Random(seed * 141650939 + 14)
   res = Result()
   res.rule = ("random DAGs with tags on keyword, positional (index) and **kwargs arguments, a tag hierarchy of "
               "depth 3, shared tagged nodes, tagged arguments without values; set_tagged / select(tag=).replace "
               "with leaf and structured values; survival through deepcopy, pickle, copy, cast, JSON and diff; "
-              "TaggedValues inside containers; non-trivial = more than one reachable Buildable")
+              "TaggedValues inside containers; sequences of add / remove / set / clear tag operations and TaggedValue "
+              "assignments (annotation tags, one TaggedValue used for several arguments) against a reference "
+              "tag table; non-trivial = more than one reachable Buildable")
   intern = common.Interner()
   stream = Stream("c14_set_tagged",
                   "From Fiddle Require Import PySlice Sig ArgStore PyCall Heap Traverse Tags C14Check.",
@@ -274,4 +394,6 @@ def run(tier: str, seed: int) -> Result:
     check_set_tagged(rng, res, intern, stream, root, f"dag#{i}")
   for i in range(12 if tier == "quick" else 200):
     check_tagged_value(rng, res, f"tv#{i}")
+  for i in range(150 if tier == "quick" else 4000):
+    tag_sequence_case(rng, res, f"tagseq#{i}")
   return res
